@@ -215,8 +215,8 @@ theorem lookupAll_capEnv (acts : Nat → List Member) (bs : List Nat) (capss : L
 /-! ### the chains of a step -/
 
 theorem evalElem_plain (cfg : EvalCfg) (k : Nat) (env : Env) (e : Elem) (b : Nat) (x : Var) (acts : List Member)
-    (prev : Option Value) (caps : List Value)
-    (he : e.sem = (b, false, .plain, x, acts))
+    (prev : Option Value) (caps : List Value) (w : ElemWrap) (hw : w = .plain ∨ w = .tokio)
+    (he : e.sem = (b, false, w, x, acts))
     (hprev : (if usesPrev acts then (env.lookup x).map some else some none) = some prev)
     (hcaps : lookupAll env (capVars b acts) = some caps) :
     evalElem cfg k env e =
@@ -225,11 +225,12 @@ theorem evalElem_plain (cfg : EvalCfg) (k : Nat) (env : Env) (e : Elem) (b : Nat
   simp only [Elem.sem, Prod.mk.injEq] at he
   obtain ⟨h1, h2, h3, h4, h5⟩ := he
   unfold evalElem
-  simp only [h1, h2, h3, h4, h5, hprev, hcaps]
+  rcases hw with rfl | rfl <;> simp only [h1, h2, h3, h4, h5, hprev, hcaps]
 
 theorem evalElems_seq (cfg : EvalCfg) (sc : SpecCfg) (hσ : sc.σ = cfg.σ) (k : Nat) (vals : List (Option Value))
     (env : Env) (varOf : Nat → Var) (bs : List Nat) (capss : List (List Value)) (elems : List Elem)
-    (hel : elems.map Elem.sem = bs.map (fun b => (b, false, ElemWrap.plain, varOf b, sc.acts b k)))
+    (w : ElemWrap) (hw : w = .plain ∨ w = .tokio)
+    (hel : elems.map Elem.sem = bs.map (fun b => (b, false, w, varOf b, sc.acts b k)))
     (hprev : ∀ b ∈ bs, usesPrev (sc.acts b k) = true →
       ∃ v, env.lookup (varOf b) = some v ∧ (vals[b]?).join = some v)
     (hl : bs.length = capss.length)
@@ -260,7 +261,7 @@ theorem evalElems_seq (cfg : EvalCfg) (sc : SpecCfg) (hσ : sc.σ = cfg.σ) (k :
             simp [hu, hv1, hv2]
           · simp [hu]
         simp only [evalElems, List.zip_cons_cons, specChainsSeq]
-        rw [evalElem_plain cfg k env e b (varOf b) (sc.acts b k) _ caps he hp hc0, hσ]
+        rw [evalElem_plain cfg k env e b (varOf b) (sc.acts b k) _ caps w hw he hp hc0, hσ]
         congr 1
         funext v
         rw [ih capss es hes (fun b' hb' => hprev b' (by simp [hb'])) (by simpa using hl)
